@@ -10,7 +10,7 @@
 From Coq Require Import List NArith ZArith Bool Lia.
 From Coq.Strings Require Import Byte.
 From RDPGW Require Import Lib.Bytes Gen.Consts Model.Utf16 Model.Packets Model.Processor
-  Spec.TunnelOrder Proofs.TunnelOrderFacts Proofs.ProcessorSim Proofs.ProcessorFacts.
+  Spec.TunnelOrder Proofs.TunnelOrderFacts Proofs.ProcessorSim Proofs.ProcessorFacts Gen.Facts.
 Import ListNotations.
 Open Scope N_scope.
 
@@ -126,3 +126,54 @@ Example C01_happy_path :
     = [MsHandshake; MsCookie; MsTunnel; MsTunnelAuth;
        MsHost [x68; x3a; x33; x33; x38; x39]; MsDial [x68; x3a; x33; x33; x38; x39]; MsChannel].
 Proof. vm_compute. repeat split. Qed.
+
+(** The decisions of the transcribed functions, as the source has them now (regenerated by the
+    translator: conditions, case labels, returns, branches, go and defer statements in source order).
+    The model is a transcription of exactly this text. *)
+Theorem C01_decisions_as_transcribed :
+  DECISIONS_Process =
+    [[x69; x66; x20; x65; x72; x72; x21; x3d; x6e; x69; x6c] (* if err!=nil *);
+     [x72; x65; x74; x75; x72; x6e; x20; x65; x72; x72] (* return err *);
+     [x73; x77; x69; x74; x63; x68; x20; x70; x74] (* switch pt *);
+     [x63; x61; x73; x65; x20; x50; x4b; x54; x5f; x54; x59; x50; x45; x5f; x48; x41; x4e; x44; x53; x48; x41; x4b; x45; x5f; x52; x45; x51; x55; x45; x53; x54] (* case PKT_TYPE_HANDSHAKE_REQUEST *);
+     [x69; x66; x20; x70; x2e; x73; x74; x61; x74; x65; x21; x3d; x53; x45; x52; x56; x45; x52; x5f; x53; x54; x41; x54; x45; x5f; x49; x4e; x49; x54; x49; x41; x4c; x49; x5a; x45; x44] (* if p.state!=SERVER_STATE_INITIALIZED *);
+     [x72; x65; x74; x75; x72; x6e; x20; x66; x6d; x74; x2e; x45; x72; x72; x6f; x72; x66; x28; x22; x25; x78; x3a; x20; x77; x72; x6f; x6e; x67; x20; x73; x74; x61; x74; x65; x22; x2c; x45; x5f; x50; x52; x4f; x58; x59; x5f; x49; x4e; x54; x45; x52; x4e; x41; x4c; x45; x52; x52; x4f; x52; x29] (* return fmt.Errorf("%x: wrong state",E_PROXY_INTERNALERROR) *);
+     [x69; x66; x20; x65; x72; x72; x21; x3d; x6e; x69; x6c] (* if err!=nil *);
+     [x72; x65; x74; x75; x72; x6e; x20; x65; x72; x72] (* return err *);
+     [x63; x61; x73; x65; x20; x50; x4b; x54; x5f; x54; x59; x50; x45; x5f; x54; x55; x4e; x4e; x45; x4c; x5f; x43; x52; x45; x41; x54; x45] (* case PKT_TYPE_TUNNEL_CREATE *);
+     [x69; x66; x20; x70; x2e; x73; x74; x61; x74; x65; x21; x3d; x53; x45; x52; x56; x45; x52; x5f; x53; x54; x41; x54; x45; x5f; x48; x41; x4e; x44; x53; x48; x41; x4b; x45] (* if p.state!=SERVER_STATE_HANDSHAKE *);
+     [x72; x65; x74; x75; x72; x6e; x20; x66; x6d; x74; x2e; x45; x72; x72; x6f; x72; x66; x28; x22; x25; x78; x3a; x20; x50; x41; x41; x20; x63; x6f; x6f; x6b; x69; x65; x20; x72; x65; x6a; x65; x63; x74; x65; x64; x2c; x20; x77; x72; x6f; x6e; x67; x20; x73; x74; x61; x74; x65; x22; x2c; x45; x5f; x50; x52; x4f; x58; x59; x5f; x49; x4e; x54; x45; x52; x4e; x41; x4c; x45; x52; x52; x4f; x52; x29] (* return fmt.Errorf("%x: PAA cookie rejected, wrong state",E_PROXY_INTERNALERROR) *);
+     [x69; x66; x20; x70; x2e; x67; x77; x2e; x43; x68; x65; x63; x6b; x50; x41; x41; x43; x6f; x6f; x6b; x69; x65; x21; x3d; x6e; x69; x6c] (* if p.gw.CheckPAACookie!=nil *);
+     [x69; x66; x20; x6f; x6b; x2c; x5f; x3a; x3d; x70; x2e; x67; x77; x2e; x43; x68; x65; x63; x6b; x50; x41; x41; x43; x6f; x6f; x6b; x69; x65; x28; x63; x74; x78; x2c; x63; x6f; x6f; x6b; x69; x65; x29; x3b; x20; x21; x6f; x6b] (* if ok,_:=p.gw.CheckPAACookie(ctx,cookie); !ok *);
+     [x72; x65; x74; x75; x72; x6e; x20; x66; x6d; x74; x2e; x45; x72; x72; x6f; x72; x66; x28; x22; x25; x78; x3a; x20; x69; x6e; x76; x61; x6c; x69; x64; x20; x50; x41; x41; x20; x63; x6f; x6f; x6b; x69; x65; x22; x2c; x45; x5f; x50; x52; x4f; x58; x59; x5f; x43; x4f; x4f; x4b; x49; x45; x5f; x41; x55; x54; x48; x45; x4e; x54; x49; x43; x41; x54; x49; x4f; x4e; x5f; x41; x43; x43; x45; x53; x53; x5f; x44; x45; x4e; x49; x45; x44; x29] (* return fmt.Errorf("%x: invalid PAA cookie",E_PROXY_COOKIE_AUTHENTICATION_ACCESS_DENIED) *);
+     [x63; x61; x73; x65; x20; x50; x4b; x54; x5f; x54; x59; x50; x45; x5f; x54; x55; x4e; x4e; x45; x4c; x5f; x41; x55; x54; x48] (* case PKT_TYPE_TUNNEL_AUTH *);
+     [x69; x66; x20; x70; x2e; x73; x74; x61; x74; x65; x21; x3d; x53; x45; x52; x56; x45; x52; x5f; x53; x54; x41; x54; x45; x5f; x54; x55; x4e; x4e; x45; x4c; x5f; x43; x52; x45; x41; x54; x45] (* if p.state!=SERVER_STATE_TUNNEL_CREATE *);
+     [x72; x65; x74; x75; x72; x6e; x20; x66; x6d; x74; x2e; x45; x72; x72; x6f; x72; x66; x28; x22; x25; x78; x3a; x20; x54; x75; x6e; x6e; x65; x6c; x20; x61; x75; x74; x68; x20; x72; x65; x6a; x65; x63; x74; x65; x64; x2c; x20; x77; x72; x6f; x6e; x67; x20; x73; x74; x61; x74; x65; x22; x2c; x45; x5f; x50; x52; x4f; x58; x59; x5f; x49; x4e; x54; x45; x52; x4e; x41; x4c; x45; x52; x52; x4f; x52; x29] (* return fmt.Errorf("%x: Tunnel auth rejected, wrong state",E_PROXY_INTERNALERROR) *);
+     [x69; x66; x20; x70; x2e; x67; x77; x2e; x43; x68; x65; x63; x6b; x43; x6c; x69; x65; x6e; x74; x4e; x61; x6d; x65; x21; x3d; x6e; x69; x6c] (* if p.gw.CheckClientName!=nil *);
+     [x69; x66; x20; x6f; x6b; x2c; x5f; x3a; x3d; x70; x2e; x67; x77; x2e; x43; x68; x65; x63; x6b; x43; x6c; x69; x65; x6e; x74; x4e; x61; x6d; x65; x28; x63; x74; x78; x2c; x63; x6c; x69; x65; x6e; x74; x29; x3b; x20; x21; x6f; x6b] (* if ok,_:=p.gw.CheckClientName(ctx,client); !ok *);
+     [x72; x65; x74; x75; x72; x6e; x20; x66; x6d; x74; x2e; x45; x72; x72; x6f; x72; x66; x28; x22; x25; x78; x3a; x20; x54; x75; x6e; x6e; x65; x6c; x20; x61; x75; x74; x68; x20; x72; x65; x6a; x65; x63; x74; x65; x64; x2c; x20; x69; x6e; x76; x61; x6c; x69; x64; x20; x63; x6c; x69; x65; x6e; x74; x20; x6e; x61; x6d; x65; x22; x2c; x45; x52; x52; x4f; x52; x5f; x41; x43; x43; x45; x53; x53; x5f; x44; x45; x4e; x49; x45; x44; x29] (* return fmt.Errorf("%x: Tunnel auth rejected, invalid client name",ERROR_ACCESS_DENIED) *);
+     [x63; x61; x73; x65; x20; x50; x4b; x54; x5f; x54; x59; x50; x45; x5f; x43; x48; x41; x4e; x4e; x45; x4c; x5f; x43; x52; x45; x41; x54; x45] (* case PKT_TYPE_CHANNEL_CREATE *);
+     [x69; x66; x20; x70; x2e; x73; x74; x61; x74; x65; x21; x3d; x53; x45; x52; x56; x45; x52; x5f; x53; x54; x41; x54; x45; x5f; x54; x55; x4e; x4e; x45; x4c; x5f; x41; x55; x54; x48; x4f; x52; x49; x5a; x45] (* if p.state!=SERVER_STATE_TUNNEL_AUTHORIZE *);
+     [x72; x65; x74; x75; x72; x6e; x20; x66; x6d; x74; x2e; x45; x72; x72; x6f; x72; x66; x28; x22; x25; x78; x3a; x20; x43; x68; x61; x6e; x6e; x65; x6c; x20; x63; x72; x65; x61; x74; x65; x20; x72; x65; x6a; x65; x63; x74; x65; x64; x2c; x20; x77; x72; x6f; x6e; x67; x20; x73; x74; x61; x74; x65; x22; x2c; x45; x5f; x50; x52; x4f; x58; x59; x5f; x49; x4e; x54; x45; x52; x4e; x41; x4c; x45; x52; x52; x4f; x52; x29] (* return fmt.Errorf("%x: Channel create rejected, wrong state",E_PROXY_INTERNALERROR) *);
+     [x69; x66; x20; x70; x2e; x67; x77; x2e; x43; x68; x65; x63; x6b; x48; x6f; x73; x74; x21; x3d; x6e; x69; x6c] (* if p.gw.CheckHost!=nil *);
+     [x69; x66; x20; x6f; x6b; x2c; x5f; x3a; x3d; x70; x2e; x67; x77; x2e; x43; x68; x65; x63; x6b; x48; x6f; x73; x74; x28; x63; x74; x78; x2c; x68; x6f; x73; x74; x29; x3b; x20; x21; x6f; x6b] (* if ok,_:=p.gw.CheckHost(ctx,host); !ok *);
+     [x72; x65; x74; x75; x72; x6e; x20; x66; x6d; x74; x2e; x45; x72; x72; x6f; x72; x66; x28; x22; x25; x78; x3a; x20; x64; x65; x6e; x69; x65; x64; x20; x62; x79; x20; x73; x65; x63; x75; x72; x69; x74; x79; x20; x70; x6f; x6c; x69; x63; x79; x22; x2c; x45; x5f; x50; x52; x4f; x58; x59; x5f; x52; x41; x50; x5f; x41; x43; x43; x45; x53; x53; x44; x45; x4e; x49; x45; x44; x29] (* return fmt.Errorf("%x: denied by security policy",E_PROXY_RAP_ACCESSDENIED) *);
+     [x69; x66; x20; x65; x72; x72; x21; x3d; x6e; x69; x6c] (* if err!=nil *);
+     [x72; x65; x74; x75; x72; x6e; x20; x65; x72; x72] (* return err *);
+     [x67; x6f; x20; x66; x6f; x72; x77; x61; x72; x64] (* go forward *);
+     [x63; x61; x73; x65; x20; x50; x4b; x54; x5f; x54; x59; x50; x45; x5f; x44; x41; x54; x41] (* case PKT_TYPE_DATA *);
+     [x69; x66; x20; x70; x2e; x73; x74; x61; x74; x65; x3c; x53; x45; x52; x56; x45; x52; x5f; x53; x54; x41; x54; x45; x5f; x43; x48; x41; x4e; x4e; x45; x4c; x5f; x43; x52; x45; x41; x54; x45] (* if p.state<SERVER_STATE_CHANNEL_CREATE *);
+     [x72; x65; x74; x75; x72; x6e; x20; x65; x72; x72; x6f; x72; x73; x2e; x4e; x65; x77; x28; x22; x77; x72; x6f; x6e; x67; x20; x73; x74; x61; x74; x65; x22; x29] (* return errors.New("wrong state") *);
+     [x63; x61; x73; x65; x20; x50; x4b; x54; x5f; x54; x59; x50; x45; x5f; x4b; x45; x45; x50; x41; x4c; x49; x56; x45] (* case PKT_TYPE_KEEPALIVE *);
+     [x69; x66; x20; x70; x2e; x73; x74; x61; x74; x65; x3c; x53; x45; x52; x56; x45; x52; x5f; x53; x54; x41; x54; x45; x5f; x43; x48; x41; x4e; x4e; x45; x4c; x5f; x43; x52; x45; x41; x54; x45] (* if p.state<SERVER_STATE_CHANNEL_CREATE *);
+     [x72; x65; x74; x75; x72; x6e; x20; x65; x72; x72; x6f; x72; x73; x2e; x4e; x65; x77; x28; x22; x77; x72; x6f; x6e; x67; x20; x73; x74; x61; x74; x65; x22; x29] (* return errors.New("wrong state") *);
+     [x63; x61; x73; x65; x20; x50; x4b; x54; x5f; x54; x59; x50; x45; x5f; x43; x4c; x4f; x53; x45; x5f; x43; x48; x41; x4e; x4e; x45; x4c] (* case PKT_TYPE_CLOSE_CHANNEL *);
+     [x69; x66; x20; x70; x2e; x73; x74; x61; x74; x65; x21; x3d; x53; x45; x52; x56; x45; x52; x5f; x53; x54; x41; x54; x45; x5f; x4f; x50; x45; x4e; x45; x44] (* if p.state!=SERVER_STATE_OPENED *);
+     [x72; x65; x74; x75; x72; x6e; x20; x65; x72; x72; x6f; x72; x73; x2e; x4e; x65; x77; x28; x22; x77; x72; x6f; x6e; x67; x20; x73; x74; x61; x74; x65; x22; x29] (* return errors.New("wrong state") *);
+     [x72; x65; x74; x75; x72; x6e; x20; x6e; x69; x6c] (* return nil *);
+     [x64; x65; x66; x61; x75; x6c; x74] (* default *)] /\
+  DECISIONS_tunnelRequest =
+    [[x69; x66; x20; x66; x69; x65; x6c; x64; x73; x3d; x3d; x48; x54; x54; x50; x5f; x54; x55; x4e; x4e; x45; x4c; x5f; x50; x41; x43; x4b; x45; x54; x5f; x46; x49; x45; x4c; x44; x5f; x50; x41; x41; x5f; x43; x4f; x4f; x4b; x49; x45] (* if fields==HTTP_TUNNEL_PACKET_FIELD_PAA_COOKIE *);
+     [x72; x65; x74; x75; x72; x6e] (* return *)].
+Proof. vm_compute. repeat split; reflexivity. Qed.
+Print Assumptions C01_decisions_as_transcribed.
